@@ -209,7 +209,29 @@ def collapse_ws(s):
     return "".join(out)
 
 
+def ascii_lower(s):
+    """ASCII case-insensitivity of HTML enumerated attributes (NOT str.lower(): U+212A KELVIN SIGN stays)"""
+    return "".join(chr(ord(c) + 32) if "A" <= c <= "Z" else c for c in s)
+
+
+INPUT_NEVER_POSTS = ("reset", "button", "file", "image")     # their value= is never what a browser posts
+BUTTON_NEVER_POSTS = ("reset", "button")
+
+
+def is_submitter(el):
+    """posts its pair only when it is the control activated to submit the form: <button> (type submit, the default)
+    and <input type=submit>"""
+    a = {}
+    for k, v in el["attrs"]:
+        a.setdefault(k, v if v is not None else "")
+    if el["tag"] == "button":
+        return ascii_lower(a.get("type", "submit")) not in BUTTON_NEVER_POSTS
+    return el["tag"] == "input" and ascii_lower(a.get("type", "text")) == "submit"
+
+
 def posted_of(el, select_name=None):
+    """the successful-control rule.  For a submitter: what it posts WHEN IT IS THE ACTIVATED ONE (a submission has at
+    most one; see the form-level clauses)."""
     a = {}
     for k, v in el["attrs"]:
         a.setdefault(k, v if v is not None else "")
@@ -222,15 +244,19 @@ def posted_of(el, select_name=None):
     if not name:
         return None
     if tag == "input":
-        ty = a.get("type", "text").lower()
+        ty = ascii_lower(a.get("type", "text"))
         if ty in ("checkbox", "radio"):
             return [name, a.get("value", "on")] if "checked" in a else None
+        if ty in INPUT_NEVER_POSTS:
+            return None
         return [name, a.get("value", "")]
     if tag == "textarea":
         # the HTML parser drops one newline right after the start tag (html.parser does not)
         text = el["text"]
         return [name, text[1:] if text.startswith("\n") else text]
     if tag == "button":
+        if ascii_lower(a.get("type", "submit")) in BUTTON_NEVER_POSTS:
+            return None
         return [name, a.get("value", "")]
     return None
 
@@ -277,6 +303,7 @@ def render_all(case):
             if r.get("within") is not None and r["within"] < len(names):
                 sel_name = names[r["within"]]
             res["posted"] = posted_of(parsed, sel_name)
+            res["submitter"] = is_submitter(parsed)
             res["id"] = a.get("id")
             res["for"] = a.get("for")
         names.append(name_attr)
@@ -285,6 +312,16 @@ def render_all(case):
 
 
 # ------------------------------------------------------------------ generation of renders
+
+def _decoys(rng, u):
+    """literals that must NOT match u although they are close: other case, other Unicode normal form, padding"""
+    import unicodedata
+    out = [rng.choice(TEXTS), rng.choice(TEXTS)]
+    if u:
+        out += [x for x in (u.swapcase(), u.upper(), u.lower(), unicodedata.normalize("NFD", u), u + " ", " " + u)
+                if x != u and rng.random() < 0.5]
+    return out
+
 
 def _control_for(rng, node, form_mode=False):
     """renders (tag, kwargs, role, extra) for one bound leaf"""
@@ -306,6 +343,9 @@ def _control_for(rng, node, form_mode=False):
         else:
             lits = list(dict.fromkeys((m if m is not None else "") for m in node["members"]))
             lits.append(rng.choice(TEXTS))
+            for m in node["members"]:
+                if m and m.swapcase() not in node["members"] and rng.random() < 0.4:
+                    lits.append(m.swapcase())          # a literal differing from a member only in case
         if rng.random() < 0.3:
             # <select multiple> bound to the Array, one option per literal
             out.append(("select", [["multiple", S("multiple")]], "select", {}))
@@ -337,16 +377,20 @@ def _control_for(rng, node, form_mode=False):
         # (form mode: a text starting with a newline is KF-C12-f, witnessed by the single-control cases)
         return [("textarea", [], "value", {})]
     if r < 0.50:
+        if not form_mode and rng.random() < 0.3:
+            # an author type on the button: submit in any case / an unknown keyword (= submit) posts when pressed,
+            # reset / button never post
+            return [("button", [["type", S(rng.choice(["submit", "Submit", "reset", "RESET", "button", "menu", ""]))]], "value", {})]
         return [("button", [], "value", {})]
     if r < 0.65:
         # a radio group: the literal equal to u plus decoys
-        lits = list(dict.fromkeys([node["u"], rng.choice(TEXTS), rng.choice(TEXTS)]))
+        lits = list(dict.fromkeys([node["u"]] + _decoys(rng, node["u"])))
         rng.shuffle(lits)
         ty = "radio" if form_mode or rng.random() < 0.9 else rng.choice(CHECK_TYPES_MIXED)
         return [("input", [["type", S(ty)], ["value", S(l)]], "check", {"lit": l}) for l in lits]
     if r < 0.80:
         # select + options (value= or contents=)
-        lits = list(dict.fromkeys([node["u"], rng.choice(TEXTS), rng.choice(TEXTS)]))
+        lits = list(dict.fromkeys([node["u"]] + _decoys(rng, node["u"])))
         rng.shuffle(lits)
         res = [("select", [], "select", {})]
         if not form_mode and rng.random() < 0.4:
@@ -375,7 +419,7 @@ def _control_for(rng, node, form_mode=False):
         # a control whose name is overridden by the author: only the label pairing is checked
         return [("input", [["type", S("text")], ["name", S(rng.choice(["other", "x y", ""]))]], "named", {})]
     if r < 0.93:
-        return [("input", [["type", S(rng.choice(SECRET + SECRET_MIXED))]] + ([["auto_value", rng.choice([B(True), S("on")])]] if rng.random() < 0.4 else []),
+        return [("input", [["type", S(rng.choice(SECRET + SECRET_MIXED + ["reset", "button", "Reset"]))]] + ([["auto_value", rng.choice([B(True), S("on")])]] if rng.random() < 0.4 else []),
                  "value", {})]
     return [("input", [["type", S("checkbox")], ["value", S(node["u"] if rng.random() < 0.5 else rng.choice(TEXTS))]], "check", None)]
 
@@ -474,6 +518,12 @@ def _rand_case(rng):
     form_mode = rng.random() < 0.35
     root_name = rng.choice([None, "f", "form", rng.choice(SAFE_NAMES)] if form_mode else [None, "", "f", "form", rng.choice(NAMES)])
     tree = _rand_tree(rng, rng.choice([0, 1, 2, 2, 3]), root_name, form_mode)
+    if form_mode and rng.random() < 0.85:
+        # whole forms: mostly at least three bindable leaves
+        for _ in range(8):
+            if len(list(leaves(tree))) >= 3:
+                break
+            tree = _rand_tree(rng, rng.choice([2, 2, 3]), root_name, form_mode)
     if tree["t"] in ("leaf", "bool", "array") and (form_mode or rng.random() < 0.7):
         tree = {"t": "dict", "name": root_name, "fields": [dict(tree, name=rng.choice(SAFE_NAMES if form_mode else NAMES))]}
     settings = []
@@ -543,6 +593,19 @@ class C12(Property):
         "Flatland.C12.Proofs.select_carries_name",
         "Flatland.C12.Proofs.scalar_posts",
         "Flatland.C12.Proofs.array_posts",
+        "Flatland.C12.Proofs.form_controls_post",
+        "Flatland.C12.Proofs.form_controls_post_generator",
+        "Flatland.C12.Proofs.seenOf_submitter",
+        "Flatland.C12.Proofs.seenVia_submitter",
+        "Flatland.C12.Proofs.countP_renderForm",
+        "Flatland.C12.Proofs.form_subCount",
+        "Flatland.C12.Proofs.browserSubmit_of_none",
+        "Flatland.C12.Proofs.browserSubmit_of_one",
+        "Flatland.C12.Proofs.submit_of_post",
+        "Flatland.C12.Proofs.form_unpressed_at",
+        "Flatland.C12.Proofs.form_unpressed",
+        "Flatland.C12.Proofs.exForm_unpressed",
+        "Flatland.C12.Proofs.exTwoSubmitters_unpressed",
         "Flatland.C12.Proofs.form_roundtrip",
         "Flatland.C12.Proofs.form_roundtrip_total",
         "Flatland.C12.Proofs.form_roundtrip_fresh",
@@ -575,16 +638,40 @@ class C12(Property):
                   "(name, true) per Boolean whose text is its true value and nothing otherwise, one pair per Array member; "
                   "formPairs_flatten: these plus the pairs of the unchecked boxes are a permutation of flatten() of the flat model "
                   "(C01/C07's function) for the same tree, names = separator-join of the path (flatName_eq_joinSep, "
-                  "posted_keys_are_paths).  Hypotheses = decidable `formOk`: non-empty flat names; no password/file/image "
-                  "(KF-C12-a, refuted by C12_full_fails); options carry value= (KF-C12-b/e, by construction); a JoinedString only as "
-                  "a text-like input (KF-C12-d); no textarea for a text starting with LF (KF-C12-f); a radio group / select offers "
-                  "the element's text exactly once; Array members are values of their member schema; types read alike by "
-                  "str.lower and a browser.  ORACLE/CORRESPONDENCE ONLY: label for = id for textarea/button controls; that "
+                  "posted_keys_are_paths).  BROWSER RULE: successful controls only -- <input type=reset|button|file|image> and "
+                  "<button type=reset|button> never post; a <button> / <input type=submit> posts only when it is THE activated "
+                  "submitter: `browserSubmit act` (act = which submitter was pressed, none = Enter / form.submit()).  The "
+                  "form_roundtrip* theorems are about browserSubmit (some 0) and take `oneSubmitter` (at most one submitter "
+                  "among the rendered leaves, the one that is pressed; the hypothesis is used: the submitters a browser counts in "
+                  "the rendered form = submitters of the tree, form_subCount, because no transform touches `type`); "
+                  "form_unpressed: for ANY number of buttons, submitted without pressing one, the browser posts the pairs minus "
+                  "those of the leaves rendered as submitters -- an element rendered only as a button that is not pressed is not "
+                  "posted.  A form with 2+ submitters and one pressed is outside the theorems (oracle clause "
+                  "form-pairs-one-submitter on the real code: the first is pressed, exactly the others' leaves are missing).  "
+                  "form_controls_post: the older statement (every control taken as successful / pressed) is kept as a lemma.  "
+                  "HYPOTHESES, exactly: (1) formOk -- every leaf has a "
+                  "non-empty flat name; a scalar is rendered as a text-like <input> (type absent or not radio / checkbox / "
+                  "password / file / image / reset / button under str.lower AND under ASCII lower-casing, which excludes KELVIN "
+                  "SIGN spellings: KF-C12-a), a <textarea> whose text does not start with LF (KF-C12-f), a <button> without an "
+                  "author type, a radio/checkbox group whose type reads the same under str.lower and ASCII lower-casing and "
+                  "whose literals are distinct and contain the text, or a <select> whose <option value=> literals (KF-C12-b/e: "
+                  "no body-only options) are distinct and contain the text; a JoinedString only as a text-like input (KF-C12-d); "
+                  "Array / MultiValue members already equal their stripped form when the member schema strips; every author "
+                  "attribute set (extraOk) has distinct names, none of name / value / type / contents / auto_*, none ending in "
+                  "an underscore; (2) oneSubmitter; (3) the generator context is Live (auto_name and auto_value on), Quiet "
+                  "(auto_domid / auto_for / auto_tabindex / auto_filter off) with ordered attribute output (OrderedSet), tables "
+                  "TablesOK (discharged for Tables.current); (4) boolsCanonical (every Boolean's text is its true value or '') "
+                  "only for the statement that the unposted pairs of flatten() have value ''.  The harness re-states (1)+(2)+(4) "
+                  "on the case (form_ok) and tags every form-mode case formOk / formOk=false:<reason>.  "
+                  "ORACLE/CORRESPONDENCE ONLY: label for = id for textarea/button controls; that "
                   "from_flat of the posted pairs rebuilds the element (C01's function on the real code)")
     technique = ("symbolic evaluation of the transform pipeline under Enabled/Disabled contexts + frame lemmas; browser "
                  "successful-control rule as a function; order-independence of the rule under attribute sorting")
     trusted_base = [
-        "the browser's successful-control rule is written twice (Lean `submitted`, Python `posted_of`) and compared on every render",
+        "the browser's successful-control rule is written twice (Lean `submitted` / `isSubmitter`, Python `posted_of` / "
+        "`is_submitter`, both ASCII-case-insensitive on type) and compared on every render; for a submitter it says what the "
+        "control posts WHEN ACTIVATED, which control is activated is a hypothesis (oneSubmitter) / an oracle choice (the first)",
+        "form_ok (the tag) is a Python restatement of Lean formOk / oneSubmitter / boolsCanonical, not computed by the driver",
         "the whole-form theorem speaks about the flat model's flatten (Flatland/Flat.lean, the subject of C01/C07); on the real "
         "code the oracle states the same clause directly (form-pairs, form-flatten) and closes the loop through from_flat",
         "the form theorems make every tag call on one generator (form_roundtrip_generator: through prepareTag, as the runner "
@@ -604,8 +691,9 @@ class C12(Property):
     rule = ("element trees (Dict/List/Array/String/Integer/Boolean, depth <= 3, names containing the separator, quotes, spaces, "
             "non-ASCII, digit-only names, anonymous members), every bindable leaf; control kinds: text-like inputs, textarea, "
             "button, checkbox (with/without literal, Boolean/Array binds), radio groups, select/option (value= or contents=), "
-            "password/file/image, labels paired with a control; form mode renders one control (group) per leaf and feeds the "
-            "posted pairs to from_flat.  non-trivial = some control posts a pair or is deliberately unchecked; distinct = distinct "
+            "password/file/image/reset/button types, labels paired with a control; decoy literals differing from the text only in "
+            "case / Unicode normal form / padding; form mode (35%, mostly >= 3 leaves, 0 / 1 / 2+ submitters) renders one "
+            "control (group) per leaf and feeds the posted pairs to from_flat.  non-trivial = some control posts a pair or is deliberately unchecked; distinct = distinct "
             "canonical case JSON")
     quick_n = 40000
     case_timeout = 60      # the machine is shared: a stalled worker must not look like a hang of the library
@@ -758,6 +846,7 @@ class C12(Property):
             posted = res["posted"]
             obs["renders"].append({"bind": bind, "err": None, "out": mc.safe(res["out"]),
                                    "posted": [mc.safe(posted[0]), mc.safe(posted[1])] if posted else None,
+                                   "submitter": bool(res.get("submitter")),
                                    "id": mc.safe(res.get("id")), "for": mc.safe(res.get("for"))})
         return obs
 
@@ -766,6 +855,7 @@ class C12(Property):
         fails = []
         root, results = render_all(case)
         posted_pairs = []
+        submitters = []
         for i, (r, res) in enumerate(zip(case["renders"], results)):
             el = res["el"]
             if res["err"]:
@@ -777,10 +867,18 @@ class C12(Property):
             name = el.flattened_name() if el is not None else ""
             role = r["role"]
             posted = res["posted"]
-            if posted is not None and r.get("form"):
+            if res.get("submitter"):
+                submitters.append(i)
+            if posted is not None and r.get("form") and (not res.get("submitter") or submitters[0] == i):
+                # a submission has ONE activated submitter: here the first one of the form; the others post nothing
                 posted_pairs.append(tuple(posted))
             if not name:
                 continue          # the property speaks about non-empty flat names
+            if role == "value" and r["tag"] == "input" and ascii_lower(str(self._type_of(r) or "text")) in INPUT_NEVER_POSTS:
+                # reset / button / file / image inputs never post their value: outside "text-like inputs and buttons"
+                continue
+            if role == "value" and r["tag"] == "button" and ascii_lower(str(self._type_of(r) or "submit")) in BUTTON_NEVER_POSTS:
+                continue          # <button type=reset|button> is not a submit button: it never posts
             if role == "value":
                 want = [name, el.u]
                 if posted != want:
@@ -828,6 +926,26 @@ class C12(Property):
                 if res.get("for") != ctl.get("id"):
                     fails.append({"clause": "label-targets-control", "render": i, "expected": ctl.get("id"), "observed": res.get("for"),
                                   "markup": [ctl["out"], res["out"]], "pair": r["pair"]})
+        if case.get("form_mode") and len(submitters) > 1:
+            # more than one submitter: only the activated one (the first) posts.  The property then holds for every
+            # element except those rendered ONLY as a submitter that was not pressed: exactly their pairs are missing
+            import flatland
+            own = []
+            silent = set(case["renders"][i]["sel"] and tuple(case["renders"][i]["sel"]) for i in submitters[1:])
+            for sel, node in leaves(case["tree"]):
+                if tuple(sel) in silent:
+                    continue
+                el, _ = navigate(root, case["tree"], sel)
+                if isinstance(el, flatland.Boolean):
+                    if el.u == el.true:
+                        own.append([el.flattened_name(), el.u])
+                elif isinstance(el, flatland.Array) and not isinstance(el, flatland.JoinedString):
+                    own.extend([m.flattened_name(), m.u] for m in el)
+                else:
+                    own.append([el.flattened_name(), el.u])
+            if not any(res["err"] or res["parsed"] is None for res in results) and [list(p) for p in posted_pairs] != own:
+                fails.append({"clause": "form-pairs-one-submitter", "expected": own, "observed": [list(p) for p in posted_pairs]})
+            return fails
         if case.get("form_mode") and not any(res["err"] or res["parsed"] is None for res in results):
             # the whole-form theorem (Proofs/C12Form.lean form_roundtrip), stated on the real elements: in document order
             # (name, u) per scalar / JoinedString, (name, true) per Boolean showing its true text and nothing otherwise,
@@ -949,14 +1067,15 @@ class C12(Property):
         return node.get("u")
 
     def _classify_a(self, case, failure):
-        """KF-C12-a: an <input> of type password/file/image without a tag-level auto_value 'on' does not carry the
-        element's text (documented: 'No value is added unless forced')."""
+        """KF-C12-a: an <input type=password> without a tag-level auto_value 'on' does not carry the element's text
+        (documented: 'No value is added unless forced').  file / image inputs are outside the property: a browser never
+        posts their value attribute."""
         if failure.get("clause") != "posts-flat-pair" or not isinstance(failure.get("render"), int):
             return None
         r = case["renders"][failure["render"]]
         kw = dict((k, v) for k, v in r["kwargs"])
         ty = kw.get("type", {}).get("v")
-        if r["tag"] != "input" or not isinstance(ty, str) or ty.lower() not in SECRET:
+        if r["tag"] != "input" or not isinstance(ty, str) or ty.lower() != "password":
             return None
         av = kw.get("auto_value")
         forced = av is not None and (av.get("v") is True or (isinstance(av.get("v"), str) and av["v"].lower() in ("1", "true", "t", "on", "yes")))
@@ -968,6 +1087,103 @@ class C12(Property):
         return None
 
     # ------------------------------------------------------------------ coverage
+    RESERVED = ("name", "value", "type", "contents", "auto_name", "auto_value", "auto_domid", "auto_for", "auto_tabindex", "auto_filter")
+
+    @staticmethod
+    def _kw_lower(t):
+        return t.lower()
+
+    def form_ok(self, case, obs):
+        """the hypotheses of the whole-form theorem (Lean: formOk && oneSubmitter, on Generator() = Live/Quiet/OrderedSet,
+        boolsCanonical), re-stated on the case: (True, None) or (False, first reason)"""
+        if not case.get("form_mode"):
+            return False, "not-form-mode"
+        if case["settings"]:
+            return False, "settings (theorem: Generator())"
+        groups = {}
+        for i, r in enumerate(case["renders"]):
+            if r.get("sel") is None or not r.get("form"):
+                return False, "unbound/extra render"
+            groups.setdefault(tuple(r["sel"]), []).append(i)
+        nsub = 0
+        for sel, node in leaves(case["tree"]):
+            idx = groups.get(tuple(sel))
+            if not idx:
+                if node["t"] == "array" and node.get("flavour", "array") != "joined" and not node["members"]:
+                    continue        # an Array without members as checkboxes: no control, no pair
+                return False, "leaf without control"
+            o = obs["renders"][idx[0]]
+            if not (o.get("bind") or {}).get("name"):
+                return False, "empty flat name"
+            rs = [case["renders"][i] for i in idx]
+            fixed = {"input": ("type", "value"), "option": ("value",), "select": ("multiple",)}
+            for r in rs:
+                extra = [k for k, _ in r["kwargs"] if k not in fixed.get(r["tag"], ())]
+                if len(set(extra)) != len(extra) or any(k in self.RESERVED or k.rstrip("_") != k for k in extra):
+                    return False, "extraOk"
+            kind = node["t"]
+            flav = node.get("flavour", "array")
+            first = rs[0]
+            ty = self._type_of(first) if first["tag"] == "input" else None
+
+            def text_like(t):
+                if t is None:
+                    return True
+                k, a = t.lower(), ascii_lower(t)
+                return k not in ("radio", "checkbox", "password", "file", "image") and a not in ("checkbox", "radio") + INPUT_NEVER_POSTS
+
+            def offers_once(lits, u):
+                return len(set(lits)) == len(lits) and u in lits
+            if kind == "array" and flav == "joined":
+                if not (len(rs) == 1 and first["tag"] == "input" and first["role"] == "value" and text_like(ty)):
+                    return False, "joined: not a text-like input"
+                nsub += ty is not None and ascii_lower(ty) == "submit"
+            elif kind == "array":
+                if node["strip"] and any((m or "") != (m or "").strip() for m in node["members"]):
+                    return False, "array members not stripped"
+                if first["tag"] == "select":
+                    lits = [dict((k, v) for k, v in r["kwargs"]).get("value", {}).get("v") for r in rs[1:]]
+                else:
+                    lits = [r.get("lit") for r in rs]
+                    if any(r["tag"] != "input" or (self._type_of(r) or "") != "checkbox" for r in rs):
+                        return False, "array: not checkboxes"
+                if lits != [(m or "") for m in node["members"]]:
+                    return False, "array: literals are not the members"
+            elif kind == "bool":
+                if not (len(rs) == 1 and first["tag"] == "input" and (ty or "") == "checkbox" and first.get("lit") is None):
+                    return False, "bool: not a checkbox without value"
+                if node["u"] not in (node["true"], ""):
+                    return False, "boolsCanonical"
+            else:
+                u = node["u"]
+                if first["tag"] == "input" and first["role"] == "value":
+                    if not text_like(ty):
+                        return False, "input type not text-like"
+                    nsub += ty is not None and ascii_lower(ty) == "submit"
+                elif first["tag"] == "textarea":
+                    if u.startswith("\n") or any(k == "contents" for k, _ in first["kwargs"]):
+                        return False, "textarea: leading LF / explicit contents"
+                elif first["tag"] == "button":
+                    nsub += 1
+                elif first["tag"] == "select":
+                    opts = rs[1:]
+                    if any("value" not in dict((k, v) for k, v in r["kwargs"]) or any(k == "contents" for k, _ in r["kwargs"]) for r in opts):
+                        return False, "option without value= / with body"
+                    if not offers_once([r.get("lit") for r in opts], u):
+                        return False, "select does not offer u exactly once"
+                elif first["tag"] == "input" and first["role"] == "check":
+                    tys = set(self._type_of(r) for r in rs)
+                    t0 = next(iter(tys))
+                    if len(tys) != 1 or t0 is None or t0.lower() not in ("radio", "checkbox") or ascii_lower(t0) != t0.lower():
+                        return False, "check group type"
+                    if not offers_once([r.get("lit") for r in rs], u):
+                        return False, "radio group does not offer u exactly once"
+                else:
+                    return False, "other control"
+        if nsub > 1:
+            return False, "more than one submitter"
+        return True, None
+
     def nontrivial(self, case, obs):
         return any(r.get("posted") for r in obs["renders"]) or any(r["role"] in ("check", "option") for r in case["renders"])
 
@@ -982,6 +1198,16 @@ class C12(Property):
                 d(c, k + 1)
         d(case["tree"])
         t.append("depth=%d" % depth)
+        if case.get("form_mode"):
+            try:
+                ok, why = self.form_ok(case, obs)
+            except Exception as e:  # noqa
+                ok, why = False, "form_ok crashed: %s" % type(e).__name__
+            t.append("formOk" if ok else "formOk=false:%s" % why)
+            t.append("form-leaves=%d" % min(len(list(leaves(case["tree"]))), 8))
+            nsub = sum(1 for r, o in zip(case["renders"], obs["renders"])
+                       if r["tag"] == "button" or (r["tag"] == "input" and ascii_lower(str(self._type_of(r) or "")) == "submit"))
+            t.append("form-submitters=%s" % (nsub if nsub < 2 else "2+"))
         for r, o in zip(case["renders"], obs["renders"]):
             kw = dict((k, v) for k, v in r["kwargs"])
             ty = kw.get("type", {}).get("v", "") if r["tag"] == "input" else ""
